@@ -2,7 +2,7 @@
   C17 — command steps report exit status faithfully and in declaration order.
 
   Property theorems only (helper lemmas: Props/Lemmas/C17_Serial.lean, C17_Async.lean, C17_Wait.lean,
-  C17_Trace.lean, C17_Parse.lean, C17_Files.lean, C17_Dup.lean).
+  C17_Trace.lean, C17_Parse.lean, C17_Files.lean, C17_Dup.lean, C17_Hist.lean).
 
   **Identical entries.** No statement below assumes that the commands, instructions or process ids of a step
   are distinct: an id names the content of an instruction, a configuration may hold it any number of times,
@@ -31,6 +31,7 @@ import Props.Lemmas.C17_Trace
 import Props.Lemmas.C17_Parse
 import Props.Lemmas.C17_Files
 import Props.Lemmas.C17_Dup
+import Props.Lemmas.C17_Hist
 
 set_option linter.unusedSimpArgs false
 
@@ -980,6 +981,97 @@ example :
     (runAsync sub []).trace = [.start 1, .fin 1, .start 2, .fin 2] ∧
     (runAsync sub []).cmdOut = some [.sub [.res ⟨1, 0, .text "one", .bytes ""⟩, .exc (.decode 2)]] ∧
     (runAsync raw []).errors = [] ∧ (runAsync raw []).started = [1, 2, 3] := by
+  decide +kernel
+
+/-! ## Histories in one process: which encoding decodes a command's saved output
+
+`runHist cfg ops`: for every step run of the history `ops` (imports of the step modules, assignments of the two
+encoding settings — by `config.init()` or directly —, step runs), the encoding each command's output is read with. -/
+
+/-- **The value in force when the step runs decides.** A run anywhere in a history reads each command's output with
+    the command's own `encoding`, else with `config.default_cmd_encoding` as the operations BEFORE that run left
+    it (`cfgAfter cfg pre`) — nothing after it, and (next theorems) nothing about imports, matters. -/
+theorem hist_run_reads_config_at_run_time (cfg : EncCfg) (pre post : List HOp) (own : List (Option String)) :
+    runHist cfg (pre ++ .run own :: post)
+      = runHist cfg pre ++ own.map (encInForce (cfgAfter cfg pre)) :: runHist (cfgAfter cfg pre) post := by
+  rw [runHist_append, runHist_cons_run]
+
+/-- The default in force at a run is the LAST assignment before it: for a history `pre ++ set v :: mid ++ run own …`
+    with no assignment of `default_cmd_encoding` in `mid`, a command without an `encoding` of its own is read with
+    `v`, one with its own (non-empty) `encoding` with that — whatever the initial configuration (environment variable
+    at start-up), whatever was imported, run or set before `set v`, whatever `mid` imports or runs. -/
+theorem hist_encoding_is_last_set (cfg : EncCfg) (pre mid post : List HOp) (v : Option String)
+    (own : List (Option String)) (hmid : ∀ o ∈ mid, o.setsCmdEnc = false) :
+    (runHist cfg ((pre ++ .setCmdEnc v :: mid) ++ .run own :: post))[(runHist cfg (pre ++ .setCmdEnc v :: mid)).length]?
+      = some (own.map fun o => match o with
+          | some e => if e = "" then v else some e
+          | none => v) := by
+  rw [hist_run_reads_config_at_run_time]
+  simp only [List.getElem?_append_right (Nat.le_refl _), Nat.sub_self, List.getElem?_cons_zero]
+  congr 1
+  apply List.map_congr_left
+  intro o _
+  have h := cfgAfter_last_set cfg pre mid v hmid
+  cases o <;> simp [encInForce, h]
+
+/-- Importing a module of the command steps — before, between or after the assignments — changes nothing: the
+    history without its imports gives the same encodings for every run. -/
+theorem hist_imports_irrelevant (cfg : EncCfg) (ops : List HOp) :
+    runHist cfg (ops.filter (fun o => !o.isImp)) = runHist cfg ops :=
+  runHist_imports_irrelevant cfg ops
+
+/-- `config.default_encoding` (files) is not what command output is read with. -/
+theorem hist_file_encoding_irrelevant (cfg : EncCfg) (f : Option String) (ops : List HOp) :
+    runHist { cfg with fileEnc := f } ops = runHist cfg ops :=
+  runHist_fileEnc_irrelevant cfg f ops
+
+/-- import first, configure later (utf-16), run: the configured value is used; a per-command encoding wins; a
+    later re-configuration is seen by the next run; the file encoding plays no part. -/
+example :
+    runHist ⟨none, none⟩ [.imp "pypyr.steps.cmd", .run [none], .setFileEnc (some "latin-1"), .setCmdEnc (some "utf-16"),
+                          .run [none, some "cp1252", some ""], .imp "pypyr.steps.shell", .setCmdEnc none, .run [none]]
+      = [[none], [some "utf-16", some "cp1252", some "utf-16"], [none]] := by
+  decide +kernel
+
+/-- **The property's clause for a step run anywhere in a history.** If what every command writes is text under the
+    encoding in force for it when the step runs (`isText (encInForce (cfgAfter cfg pre) own) id`) — whatever it would
+    be under any value the setting had earlier, e.g. when the modules were imported — the step succeeds iff every
+    command it ran could be started and exited 0. -/
+theorem hist_step_ok_iff_all_run_zero (isText : Option String → Nat → Bool) (cfg : EncCfg) (pre : List HOp)
+    (cmds : List (Option String × Proc))
+    (htext : ∀ x ∈ cmds, isText (encInForce (cfgAfter cfg pre) x.1) x.2.id = true) :
+    (histStep isText cfg pre cmds).err = none ↔
+      ∀ d ∈ takeThroughD (declsOf (cmds.map (histCommand isText (cfgAfter cfg pre)))),
+        d.proc.spawn = none ∧ d.proc.code = 0 := by
+  unfold histStep
+  apply serial_ok_iff_all_run_zero_decodable
+  · intro c hc
+    obtain ⟨x, _, rfl⟩ := List.mem_map.mp hc
+    rfl
+  · intro d hd
+    have : ∀ (l : List (Option String × Proc)), (∀ x ∈ l, isText (encInForce (cfgAfter cfg pre) x.1) x.2.id = true) →
+        ∀ d ∈ declsOf (l.map (histCommand isText (cfgAfter cfg pre))), d.undec = false := by
+      intro l
+      induction l with
+      | nil => intro _ d hd; simp [declsOf] at hd
+      | cons x l ih =>
+        intro hx d hd
+        simp only [List.map_cons, declsOf, List.mem_append, List.mem_map] at hd
+        rcases hd with ⟨p, hp, rfl⟩ | hd
+        · simp only [histCommand, List.mem_singleton] at hp
+          subst hp
+          simp [Decl.undec, histCommand, hx x (by simp)]
+        · exact ih (fun y hy => hx y (by simp [hy])) d hd
+    exact this cmds htext d hd
+
+/-- import, then configure utf-16, then run three commands writing utf-16 text (text under utf-16, not under the
+    start-up default): with exit codes 0, 3, 0 the step fails at the SECOND command with its code, the first one's
+    result is kept, the third never starts. -/
+example :
+    let isText : Option String → Nat → Bool := fun e _ => e == some "utf-16"
+    let o := histStep isText ⟨none, none⟩ [.imp "pypyr.steps.cmd", .setCmdEnc (some "utf-16")]
+               [(none, P 1 0 "a" ""), (none, P 2 3 "b" ""), (none, P 3 0 "c" "")]
+    o.started = [1, 2] ∧ o.err = some (.exit 2 3) ∧ o.results.map (·.id) = [1, 2] := by
   decide +kernel
 
 end Pypyr.C17
